@@ -1,0 +1,9 @@
+//go:build verif
+
+package fstree
+
+// VerifReadOnly tells whether the tree is opened read-only (verification
+// harness only).
+func (t *FSTree) VerifReadOnly() bool {
+	return t.readOnly
+}
